@@ -202,35 +202,74 @@ NUM_CHECKER = "fun c => match c with (e, pts, ppts, obs) => worst (map (num_chec
 NUM_TYPE = "expr * list (string * Q) * list (string * Q) * list Q"
 
 
+UNRESOLVED = []          # (case index, reason) of cases the Coq evaluation could not decide in time / memory (counted as undecided)
+
+
 def run_classify(imports, defs, case_type, cases, checker, shard=200):
-    """Like coqrun.run_cases but for nat verdicts: returns (fails, undecided)."""
+    """Like coqrun.run_cases but for nat verdicts: returns (fails, undecided).
+    A shard on which coqc dies (time limit, memory, stack) is split in halves and retried; a single case on which it still
+    dies is counted as undecided (an interval computation that blows up is not a verdict either way) and listed in UNRESOLVED."""
     import re as _re
     import os, tempfile, shutil
     from concurrent.futures import ThreadPoolExecutor
     os.makedirs(coqrun.WORK, exist_ok=True)
     d = tempfile.mkdtemp(prefix="num_", dir=coqrun.WORK)
-    paths = []
+    counter = [0]
+
+    def write(chunk):
+        counter[0] += 1
+        path = os.path.join(d, f"cases_{counter[0]}.v")
+        with open(path, "w") as f:
+            f.write(coqrun.PRELUDE.format(imports=imports))
+            f.write(defs + "\n")
+            f.write(f"Definition cases : list ({case_type}) := [\n" + ";\n".join(chunk) + "\n].\n")
+            f.write(f"Definition the_checker : ({case_type}) -> nat := {checker}.\n")
+            f.write("Eval vm_compute in (classify the_checker cases).\n")
+        return path
+
+    def parse(out, k):
+        m = _re.search(r"=\s*\(\s*(\[.*?\])\s*(?:%\w+)?\s*,\s*(\[.*?\])\s*(?:%\w+)?\s*\)", out, _re.S)
+        if not m:
+            raise coqrun.CoqError("cannot parse classify output:\n" + out[-1500:])
+        res = ([], [])
+        for grp, acc in ((m.group(1), res[0]), (m.group(2), res[1])):
+            body = grp.strip()[1:-1].replace("%nat", "").strip()
+            if body:
+                acc.extend(k + int(x) for x in _re.split(r"[;\s]+", body) if x)
+        return res
+
+    def attempt(k, chunk, timeout):
+        try:
+            return parse(coqrun._run_shard((write(chunk), timeout)), k)
+        except coqrun.CoqError as ex:
+            msg = str(ex)
+            died = "timeout" in msg or msg.rstrip().endswith(":") or "Stack overflow" in msg or "Out of memory" in msg
+            if not died:
+                raise                      # a genuine Coq error (ill-typed case ...): the harness is wrong, say so
+            return None
+
+    def solve(k, chunk, timeout):
+        got = attempt(k, chunk, timeout)
+        if got is not None:
+            return got
+        if len(chunk) == 1:
+            UNRESOLVED.append((k, "coqc died or exceeded its time limit on this single case"))
+            return [], [k]
+        h = len(chunk) // 2
+        f1, u1 = solve(k, chunk[:h], max(120, timeout // 2))
+        f2, u2 = solve(k + h, chunk[h:], max(120, timeout // 2))
+        return f1 + f2, u1 + u2
+
     try:
-        for k in range(0, max(len(cases), 1), shard):
-            path = os.path.join(d, f"cases_{k // shard}.v")
-            with open(path, "w") as f:
-                f.write(coqrun.PRELUDE.format(imports=imports))
-                f.write(defs + "\n")
-                f.write(f"Definition cases : list ({case_type}) := [\n" + ";\n".join(cases[k:k + shard]) + "\n].\n")
-                f.write(f"Definition the_checker : ({case_type}) -> nat := {checker}.\n")
-                f.write("Eval vm_compute in (classify the_checker cases).\n")
-            paths.append((k, path))
+        starts = list(range(0, max(len(cases), 1), shard))
         with ThreadPoolExecutor(max_workers=12) as ex:
-            outs = list(ex.map(coqrun._run_shard, [(p, 900) for _, p in paths]))
+            first = list(ex.map(lambda k: attempt(k, cases[k:k + shard], 900), starts))
         fails, und = [], []
-        for (k, _), out in zip(paths, outs):
-            m = _re.search(r"=\s*\(\s*(\[.*?\])\s*(?:%\w+)?\s*,\s*(\[.*?\])\s*(?:%\w+)?\s*\)", out, _re.S)
-            if not m:
-                raise coqrun.CoqError("cannot parse classify output:\n" + out[-1500:])
-            for grp, acc in ((m.group(1), fails), (m.group(2), und)):
-                body = grp.strip()[1:-1].replace("%nat", "").strip()
-                if body:
-                    acc.extend(k + int(x) for x in _re.split(r"[;\s]+", body) if x)
+        for k, got in zip(starts, first):
+            if got is None:
+                got = solve(k, cases[k:k + shard], 600)
+            fails += got[0]
+            und += got[1]
         return sorted(fails), sorted(und)
     finally:
         shutil.rmtree(d, ignore_errors=True)
@@ -423,3 +462,28 @@ def has_numpy_constant(e):
         elif isinstance(t, UnaryOp):
             stack.append(t.operand)
     return False
+
+
+def iter_eval(expr, pt):
+    """Value of a scalar tree by an explicit-stack post-order walk over the BinaryOp / UnaryOp spine, using the library's own
+    operator tables for the nodes and its evaluate() for the (shallow) leaves: lets the harness read a number off a tree that is
+    too deep for any recursive evaluator, without going through the closure compiler."""
+    from optyx.core.expressions import BinaryOp, UnaryOp
+    out = []
+    stack = [(expr, False)]
+    while stack:
+        t, done = stack.pop()
+        if isinstance(t, BinaryOp):
+            if done:
+                b = out.pop(); a = out.pop()
+                out.append(BinaryOp._OPS[t.op](a, b))
+            else:
+                stack.append((t, True)); stack.append((t.right, False)); stack.append((t.left, False))
+        elif isinstance(t, UnaryOp):
+            if done:
+                out.append(UnaryOp._OPS[t.op](out.pop()))
+            else:
+                stack.append((t, True)); stack.append((t.operand, False))
+        else:
+            out.append(t.evaluate(pt))
+    return out[0]
